@@ -14,7 +14,7 @@ CHECKS = {
          "as C01 for PayProof / allow_payment: every false variant of the statement (wrong nonce, wrong amount, out-of-range balances, foreign channel id, close tag replaced, mismatched old/new lock, "
          "foreign or tampered pay token, identity signature via chosen randomness) x method; TLC decides Sound incl. the range link cluster and validates every real verdict", "6 C02"),
  "C03": ("model_checking", "TLC on ZkAbacus.tla + trace validation of fault-injected real runs",
-         "TLC model-checks ZkAbacus.tla (CanClose, RefusedIsInert, ReleaseOnlyOnAccept, ClosedOnUnrevoked, FaultRefused, ReplayRefused) exhaustively within small bounds; "
+         "TLC model-checks ZkAbacus.tla (CanClose, RefusedIsInert, ReleaseOnlyOnAccept, ClosedOnUnrevoked, FaultRefused, ReplayRefused, and the dispute outcomes DisputeCustomerSafe, DisputePunishOld, MerchantPayoffBound, OutcomeOnlyByCustomer) exhaustively within small bounds; "
          "TLC simulation walks of the same spec and a weighted random driver are replayed into the real customer/merchant with every fault kind at every reply point, "
          "and every recorded API call (outcome, stage, balances, byte-image unchanged flag, close probe on a copy, disclosed lock ids) is validated by TLC against Trace_ZkAbacus.tla "
          "with the spec's invariants evaluated at every event", "6 C03"),
